@@ -179,6 +179,10 @@ func (s *DDSketch) GetValueAtQuantile(quantile float64) (float64, error) {
 	// function, depending on the architecture and whether FMA operations are used or not by the
 	// compiler.
 	rank := float64(quantile * (count - 1))
+	if rank < 0 {
+		// The total count may be lower than 1 (fractional counts, reweighting).
+		rank = 0
+	}
 
 	negativeValueCount := s.negativeValueStore.TotalCount()
 	if rank < negativeValueCount {
